@@ -29,7 +29,10 @@ class Check(PropertyCheck):
             # exhaustive small scope first (every instance <= 2 jobs x 2 operations, durations 0..2, every interleaving)
             self.extra_coverage = {"exhaustive_small_scope": True}
             yield from slices.exhaustive_small("snap")
-        for _ in range(n):
+        for _i in range(n):
+            if _i % 15 == 14:
+                yield slices.zero_first_scenario(rng)
+                continue
             yield slices.dispatch_scenario(rng, with_invalid=True, replay=True, queries=True,
                                            max_jobs=4 if tier == "quick" else 5,
                                            max_ops=4 if tier == "quick" else 6)
